@@ -90,7 +90,7 @@ def _nospace_end(s):
 
 @composite
 def case(d):
-    p = family.member_of(d, prefer=("K01", "K02", "K03"))
+    p = family.member_of(d, prefer=("K01", "K02", "K03", "K04"))
     sp = spans(p)
     forced = None
     if sp and d.bool(0.4):
